@@ -265,7 +265,7 @@ func main() {
 	res.WallS = time.Since(start).Seconds()
 
 	// verdict
-	for _, k := range []string{"unsupported", "unwind", "steps", "internal", "solver-error", "feasibility-unknown", "path-budget", "time-budget", "time"} {
+	for _, k := range []string{"unsupported", "unwind", "steps", "internal", "solver-error", "panic-unconfirmed", "path-budget", "time-budget", "time"} {
 		if ex.Ended[k] > 0 {
 			res.Inconclusive = append(res.Inconclusive, fmt.Sprintf("%s×%d", k, ex.Ended[k]))
 		}
